@@ -491,6 +491,7 @@ func (w *World) resolveStep(st *Step) ([]sdk.Msg, []byte) {
 	}
 	if st.N["upper"] == 1 {
 		upperCreator(msgs[0]) // bech32 is case-insensitive: the all-upper-case spelling names the same account
+		w.Fault("addr_respelling")
 	}
 	if k := st.N["subst"]; k > 0 {
 		if sa := w.acct(st.N["subst_acct"]); sa != nil {
